@@ -6,7 +6,6 @@ From Coq Require Import Permutation Sorted.
 From V.model Require Import Base RelLex RelParse RelAcc RelGrammar RelWrap RelWrapSpec.
 From V.model Require DebVersion Sat.
 From V.proofs Require Import BaseP DebVersionP SatP RelGrammarAccP RelWrapSortP.
-Set Default Timeout 60.
 
 (* ------------------------------------------------------------------ text *)
 Lemma texts_spaced (ls : list (list rtree)) : texts (spaced ls) = join [32%N] (map texts ls).
